@@ -132,7 +132,7 @@ LoOK(r, st) ==
   /\ r.mode \in {"lat", "rnd"} /\ LcEnabled(st, OpOf(r)) /\ r.op \notin {"fw", "rv"}
   /\ r.st = st2
   /\ r.eq /\ r.neq >= 12
-  /\ r.ilat = st2[2] /\ r.ih = st2[4] /\ r.ilonr = 0 /\ r.ilonrng
+  /\ r.ilat = st2[2] /\ r.ih = st2[4] /\ r.ilonr = 0       \* LongitudeOrigin(): the same meridian (its range is not documented)
   /\ r.ia = r.ea /\ r.if = r.ef
   /\ (st2[1] = WGS => r.iaq = WGS84A /\ r.iaex /\ r.irf = WGS84RF)
 \* a lattice query on the live object
